@@ -148,7 +148,12 @@ class LexInfZ3(Inference):
             return False
         if v < f:
             return True
+        # tie in this layer: the least vector of the verifying worlds is smaller than the
+        # least vector of the falsifying worlds iff SOME minimum set of the verification
+        # side has a continuation that beats the continuations of EVERY minimum set of
+        # the falsification side
         for xi_i in [s for s in xi_i_set if len(s) == v]:
+            beats_all = True
             for xi_i_prime in [s for s in xi_i_prime_set if len(s) == f]:
                 if partition_index == 0:
                     return False
@@ -170,8 +175,11 @@ class LexInfZ3(Inference):
                 opt_v.pop()
                 opt_f.pop()
                 if result == False:
-                    return False
-        return True
+                    beats_all = False
+                    break
+            if beats_all:
+                return True
+        return False
 
     """
     Minimal Correction Subset Calculation
